@@ -15,6 +15,7 @@ import Ark.Model.DrvC06
 import Ark.Model.DrvC11
 import Ark.Model.DrvC04
 import Ark.Model.DrvC09
+import Ark.Model.DrvC12
 /-  arkdrv: one op per line on stdin: `<prop> <op> args… => <impl output>` → one line `model|verdict` -/
 open Ark
 
@@ -26,6 +27,7 @@ structure DrvState where
   c13 : DrvC13.Cache := {}
   c06 : DrvC06.Cache := {}
   c11 : DrvC11.Cache := {}
+  c12 : DrvC12.Cache := {}
 
 def dispatch (st : DrvState) (line : String) : DrvState × String :=
   let (inp, impl) := match line.trimAscii.toString.splitOn " => " with
@@ -36,6 +38,10 @@ def dispatch (st : DrvState) (line : String) : DrvState × String :=
   | "C15" :: op :: args =>
     match DrvC15.run op args impl with
     | some (m, s) => (st, m ++ "|" ++ s)
+    | none => (st, "bad-op")
+  | "C12" :: op :: args =>
+    match DrvC12.run st.c12 op args impl with
+    | some (c, m, s) => ({ st with c12 := c }, m ++ "|" ++ s)
     | none => (st, "bad-op")
   | "C06" :: op :: args =>
     match DrvC06.run st.c06 op args impl with
